@@ -387,6 +387,11 @@ def check(prog: Program, res: Result, tier: str) -> None:
                     if isinstance(b, ast.BinOp) and isinstance(b.op, ast.Sub) and isinstance(b.right, ast.Name) \
                             and b.right.id == "index_base":
                         subs_ok = True
+                    elif isinstance(b, ast.BinOp) and isinstance(b.op, ast.Sub) and not isinstance(b.right, ast.Name) \
+                            and any(isinstance(x, ast.Name) and x.id == "index_base" for x in ast.walk(b.right)) \
+                            and isinstance(b.right, (ast.BoolOp, ast.IfExp)):
+                        verdict = ("BAD", f"what is subtracted is `{ast.unparse(b.right)}`, not the base itself: a falsy base (index_base=0) is "
+                                          "replaced by another value, so 0-based files are shifted by one", n)
                     if isinstance(b, ast.BinOp) and isinstance(b.op, ast.Add) and any(
                             isinstance(x, ast.Name) and x.id == "index_base" for x in (b.left, b.right)):
                         verdict = ("BAD", "index_base is added instead of subtracted", n)
